@@ -370,7 +370,7 @@ func (c *ctxT) faultCorpus(cfg cfgT) {
 // calls.
 func (c *ctxT) multiSession(rnd *common.Rand, caseNo int) {
 	r := c.r
-	cfg := cfgs[caseNo%2]
+	cfg := cfgs[caseNo%len(cfgs)]
 	nS := 2 + rnd.Intn(3)
 	type job struct {
 		cl     call
